@@ -27,6 +27,7 @@
 #include "ctl_sched.h"
 #include <pthread.h>
 #include <inttypes.h>
+#include <unistd.h>
 
 /* layout of the (file-private) bucket structure of parsec_hash_table.c; verified by layout_selftest() */
 typedef struct { parsec_atomic_lock_t lock; int32_t cur_len; parsec_hash_table_item_t *first_item; } bucket_view_t;
@@ -300,12 +301,24 @@ static int thread_can_move(int t)
     if( ctl_cur->kind[t] == PARSEC_VERIF_K_CAS && 1 == resolve(ctl_cur->addr[t], &T, &b) && *(volatile int32_t*)ctl_cur->addr[t] != 0 ) return 0;
     return 1;
 }
+static const char *cur_caseline = "";
+static int g_sched[8192];
 typedef struct { ctl_choose_t inner; void *ictx; } filt_t;
 static int choose_filtered(void *cctx, int step, int ne, const int *enabled)
 {
     filt_t *f = (filt_t*)cctx; int fe[CTL_MAXT], back[CTL_MAXT], nf = 0;
     for(int i = 0; i < ne; i++) if( thread_can_move(enabled[i]) ) { fe[nf] = enabled[i]; back[nf] = i; nf++; }
-    if( 0 == nf ) { run_deadlock = 1; return -1; }
+    if( 0 == nf ) {
+        /* every unfinished thread waits for a lock whose holder cannot move: the real code is deadlocked; letting the
+         * workers run freely would hang, so report and leave */
+        const char *bar = strstr(cur_caseline, " | ");
+        printf("!viol C32 deadlock: no thread can move (every unfinished thread waits for a bucket lock or for the rwlock) after %d steps; case: %.*s | replay",
+               step, (int)(bar ? bar - cur_caseline : (long)strlen(cur_caseline)), cur_caseline);
+        for(int i = 0; i < step && i < 8192; i++) printf(" %d", g_sched[i]);
+        printf("\n");
+        fflush(stdout);
+        _exit(2);
+    }
     int j = f->inner(f->ictx, step, nf, fe);
     return (j < 0 || j >= nf) ? -1 : back[j];
 }
@@ -335,11 +348,11 @@ static int choose_pct(void *cctx, int step, int ne, const int *enabled)
 static int c_nb0, c_hint, c_maxb, c_hmode;
 static void one_run(const char *caseline, ctl_choose_t ch, void *cctx)
 {
-    static int sched[8192]; int complete;
+    int *sched = g_sched; int complete;
     filt_t f = { ch, cctx };
     ht_setup(c_nb0, c_hint, c_maxb, c_hmode);
     held_reset();
-    cur_step = 0; run_deadlock = 0;
+    cur_step = 0; run_deadlock = 0; cur_caseline = caseline;
     for(int t = 0; t < CTL_MAXT; t++) { stale[t] = 0; prev_kind[t] = CTL_K_START; prev_addr[t] = NULL; }
     for(int i = 0; i < nops[CTL_MAXT]; i++) do_op(&prog[CTL_MAXT][i]);          /* prefix, by the main thread */
     printf("%s => ok | ", caseline); print_dump(); printf("\n");
@@ -501,7 +514,7 @@ int main(void)
 {
     static char line[1 << 16], copy[1 << 16]; static char *tok[4096];
     int in_seq = 0;
-    setvbuf(stdout, NULL, _IOFBF, 1 << 20);
+    setvbuf(stdout, NULL, _IOLBF, 1 << 16);   /* a crash of the code under test must not lose the transcript */
     parsec_mca_param_init();
     parsec_hash_tables_init();
     mch_index = parsec_mca_param_find("parsec", NULL, "hash_table_max_collisions_hint");
